@@ -33,6 +33,8 @@ def units(tier):
         us.append(Unit(B.BootImage, {'history': 'random:%d' % (base + k)}))
         us.append(Unit(B.BootImage, {'history': 'random:%d' % (base + k), 'reopen': True}))
         us.append(Unit(B.BootImage, {'history': 'random:%d' % (base + k), 'reopen': 'edit'}))
+        # ... and histories that go on after the image was written and opened again (at random points after the first boot entry)
+        us.append(Unit(B.BootImage, {'history': 'random:%d:r' % (base + k)}))
     for h in sorted(B.HISTORIES):
         if h == 'floppy' and tier == 'quick':
             continue        # a 1.44 MB image: thorough tier only
